@@ -77,25 +77,21 @@ Proof.
   eexists. vm_compute. repeat split.
 Qed.
 
-(* C18_std_natives_kept: a history with rejected, accepted and repeated names *)
+(* C18_std_natives_kept / C18_registry_answers / C18_colliding_name_rejected: a history with reserved, accepted,
+   repeated and colliding names *)
 Definition w_ops : list (list N * hostfn) :=
-  [([95; 95; 109; 105; 110]%N, UserFn 1);        (* "__min": rejected *)
+  [([95; 95; 109; 105; 110]%N, UserFn 1);        (* "__min": reserved *)
    ([102]%N, UserFn 2);                          (* "f" *)
+   (name_collides_min, UserFn 5);                (* "tuewgsg": the handle of __min is held by another name *)
    ([95; 120]%N, UserFn 3);                      (* "_x": accepted *)
    ([102]%N, UserFn 4)].                         (* "f" again: replaces *)
 Example std_natives_kept_witness :
-  (forall n name f, In n std_natives -> In (name, f) w_ops -> starts_reserved name = false ->
-                    handle_of_bytes name <> handle_of_bytes (native_name n)) /\
-  snd (run_public vm_new_registry w_ops) = [RegRejected; RegOk; RegOk; RegOk] /\
+  In NStdMin std_natives /\ In (name_collides_min, NStdMin) collisions /\
+  snd (run_public vm_new_registry w_ops) = [RegRejected; RegOk; RegCollides; RegOk; RegOk] /\
   reg_get (fst (run_public vm_new_registry w_ops)) (handle_of_bytes [102]%N) = Some (mkProc [102]%N (UserFn 4)) /\
-  reg_get (fst (run_public vm_new_registry w_ops)) (handle_of_bytes name_min) = Some (mkProc name_min (StdFn NStdMin)).
-Proof.
-  split.
-  - intros n name f Hn Hin Hr. cbn in Hn, Hin.
-    destruct Hn as [<-|[<-|[<-|[<-|[]]]]];
-      destruct Hin as [E|[E|[E|[E|[]]]]]; inversion E; subst; try discriminate Hr; vm_compute; discriminate.
-  - vm_compute. repeat split.
-Qed.
+  reg_get (fst (run_public vm_new_registry w_ops)) (handle_of_bytes name_min) = Some (mkProc name_min (StdFn NStdMin)) /\
+  last_ok w_ops (snd (run_public vm_new_registry w_ops)) (handle_of_bytes name_min) = None.
+Proof. cbn [std_natives collisions In]. repeat split; try tauto; vm_compute; reflexivity. Qed.
 
 (* C18_reentry_balanced_straightline: callee (arity 1) = ScalarNil; CopyLast; Pop; Return at position 0, called by a
    host function through run_function with the stack [9; f] ++ [4] *)
